@@ -209,6 +209,19 @@ func cmdCheck(args []string) int {
 		}
 		t0 := time.Now()
 		r := VerifyFunc(prog, fc)
+		// clauses tagged for other properties only are discharged by those properties' checks (here they are assumed
+		// where the function relies on them)
+		if r.FC != nil {
+			kept := r.Obls[:0:0]
+			for _, o := range r.Obls {
+				if len(o.Tags) > 0 && !containsStr(o.Tags, prop) && o.Kind != "stale" {
+					r.SkippedOther++
+					continue
+				}
+				kept = append(kept, o)
+			}
+			r.Obls = kept
+		}
 		if *verbose {
 			fmt.Printf("  generated %-50s %3d obligations %6.2fs %s\n", r.Name, len(r.Obls), time.Since(t0).Seconds(), r.Err)
 			for _, u := range r.Unmod {
